@@ -228,6 +228,49 @@ theorem dictionary_merge_same_rows (hash : Option Bytes → Nat) (maxKey : Nat) 
 example : (Dict.mk [some 0, some 1, none, some 2] [none, some [], some [120]]).decode
     = [none, some [], none, some [120]] := by decide
 
+/-! ### shape ties -/
+
+/-- **T-tie for the guards and expressions the models mirror** (tools/items/C03.py `SHAPES`): the
+coalescer's loop / finish / bypass / fit / sparse-copy guards, `default_strategy`'s `None`/`All`
+side conditions, `All => slice(0, count)`, the predicate-length guard, `values & validity`,
+`count - popcount`, the `+ offset` of every `filter_bits` arm, the `FilterBytes` copies,
+`take_nulls`/`take_native`/`check_bounds`, the FixedSizeList bounds test, `nullif`'s `l & !r`,
+`shift`'s guard, the interner comparison and the byte-builder offset shift are still written
+the way `Model.lean` models them.  An edit of any of them makes the item LOST and this lemma
+stop checking. -/
+theorem selection_shapes_intact :
+    Generated.C03.SH_COAL_LOOP_GUARD_lost = false ∧
+    Generated.C03.SH_COAL_LOOP_BODY_lost = false ∧
+    Generated.C03.SH_COAL_FINISH_GUARD_lost = false ∧
+    Generated.C03.SH_COAL_EMPTY_SKIP_lost = false ∧
+    Generated.C03.SH_COAL_BYPASS_lost = false ∧
+    Generated.C03.SH_COAL_FITS_lost = false ∧
+    Generated.C03.SH_COAL_EXCEEDS_lost = false ∧
+    Generated.C03.SH_COAL_SPARSE_lost = false ∧
+    Generated.C03.SH_COAL_MATERIALIZE_lost = false ∧
+    Generated.C03.SH_COAL_FILTER_SHORTCUTS_lost = false ∧
+    Generated.C03.SH_COAL_SPARSE_TAIL_lost = false ∧
+    Generated.C03.SH_COAL_FINISH_FN_lost = false ∧
+    Generated.C03.SH_COAL_NEXT_lost = false ∧
+    Generated.C03.SH_FILTER_DEFAULT_STRATEGY_lost = false ∧
+    Generated.C03.SH_FILTER_ALL_NONE_lost = false ∧
+    Generated.C03.SH_FILTER_LEN_GUARD_lost = false ∧
+    Generated.C03.SH_FILTER_PREP_MASK_lost = false ∧
+    Generated.C03.SH_FILTER_NEW_WITH_COUNT_lost = false ∧
+    Generated.C03.SH_FILTER_NULLS_COUNT_lost = false ∧
+    Generated.C03.SH_FILTER_BITS_OFFSETS_lost = false ∧
+    Generated.C03.SH_FILTER_BYTES_SLICES_lost = false ∧
+    Generated.C03.SH_FILTER_BYTES_IDX_lost = false ∧
+    Generated.C03.SH_TAKE_NULLS_lost = false ∧
+    Generated.C03.SH_TAKE_NATIVE_NULL_lost = false ∧
+    Generated.C03.SH_TAKE_CHECK_BOUNDS_lost = false ∧
+    Generated.C03.SH_TAKE_FSL_BOUND_lost = false ∧
+    Generated.C03.SH_NULLIF_EXPR_lost = false ∧
+    Generated.C03.SH_NULLIF_RIGHT_lost = false ∧
+    Generated.C03.SH_SHIFT_GUARD_lost = false ∧
+    Generated.C03.SH_INTERNER_CMP_lost = false ∧
+    Generated.C03.SH_CONCAT_BYTES_SHIFT_lost = false := ⟨rfl, rfl, rfl, rfl, rfl, rfl, rfl, rfl, rfl, rfl, rfl, rfl, rfl, rfl, rfl, rfl, rfl, rfl, rfl, rfl, rfl, rfl, rfl, rfl, rfl, rfl, rfl, rfl, rfl, rfl, rfl⟩
+
 /-! ### batch coalescer -/
 
 /-- the freshly constructed coalescer satisfies the invariant -/
